@@ -372,67 +372,128 @@ class KillScenario:
                 pass
         return probs
 
-    def fault_points(self):
+    def fault_points(self, quick=False):
         pts = []
         for (a, b) in self.rounds:
             for e in self.twin_ev:
-                if a <= e['n'] <= b and e['op'] in ('write', 'pwrite'):
+                if not (a <= e['n'] <= b):
+                    continue
+                if e['op'] in ('write', 'pwrite'):
                     for mode in ('bitflip', 'shorten', 'enospc', 'eio'):
+                        pts.append((e['n'], mode, b, e['path']))
+                elif e['op'] in ('open', 'fsync', 'fdatasync', 'close', 'rename', 'unlink'):
+                    # a copy on a full / failing disk: the call itself fails
+                    for mode in (('enospc',) if (quick and e['op'] in ('close', 'unlink')) else ('enospc', 'eio')):
                         pts.append((e['n'], mode, b, e['path']))
         return pts
 
     def run_fault(self, pt):
-        """write fault at numbered call n (on the .tmp of one copy), process killed right after the last rename of that save round
-        if it ever gets there.  Property: the command stops with an error and no copy was replaced in that round -- or, if it went
-        on to the renames, every copy is a complete CRC-valid file and all are byte-identical."""
+        """fault at numbered call n on one copy: a write that stores damaged / fewer bytes while reporting success, or any call that
+        fails with ENOSPC / EIO.  The process is also killed right after the last rename of that save round if it gets there.
+        Property: each copy is the complete old or the complete new file of that round, new ones first; a copy may be new only if
+        it is CRC-valid; after a silent data fault no rename may happen at all unless every installed copy is valid and all are
+        identical; a failing call makes the command fail; the next sync brings all copies to one valid file."""
         n, mode, b, path = pt
         name = 'f%d_%s' % (n, mode)
         wd = self.clone(name)
         log = os.path.join(self.root, name + '.log')
         probs = []
         try:
-            rc, out = L.run_tool(self.tool, ['-c', 'conf', 'sync'], wd, self.env(T1, log, (b, 'after'), (n, mode)))
+            rc, out = L.run_tool(self.tool, ['-c', 'conf', 'sync'], wd, self.env(T1, log, (b, 'after') if n < b else None, (n, mode)))
             r = 0
             for i, (a, bb) in enumerate(self.rounds):
                 if n >= a:
                     r = i
-            old = self.versions[r]
+            old, new = self.versions[r], self.versions[r + 1]
             cp = self.read_copies(wd)
             ev = parse_log(log)
-            renamed = [e['path2'] for e in ev if e['op'] == 'rename' and e['n'] >= self.rounds[r][0]]
-            rep = dict(copies=self.nc, fault_at=n, fault=mode, on=path, round=r, rc=rc, renamed=renamed, big=self.big,
+            renamed = [e['path2'] for e in ev if e['op'] == 'rename' and e['res'] == 0 and e['n'] >= self.rounds[r][0]]
+            kind = self.kinds.get(n)
+            silent = mode in ('bitflip', 'shorten')
+            cls = ['new' if c == new else 'old' if c == old else 'OTHER' for c in cp]
+            rep = dict(copies=self.nc, fault_at=n, fault=mode, call=kind, on=path, round=r, rc=rc, renamed=renamed, big=self.big, classes=cls,
                        copies_valid=[L.seal_ok(c or b'') for c in cp], output=out[-600:].decode(errors='replace'))
             self.stats['faults'] = self.stats.get('faults', 0) + 1
+            key = 'fault_%s_%s' % (kind, mode)
+            self.stats.setdefault('fault_kinds', {})
+            self.stats['fault_kinds'][key] = self.stats['fault_kinds'].get(key, 0) + 1
+            what = 'fault (%s) on %s of %s at call %d of a save with %d copies' % (mode, kind, path, n, self.nc)
             if rc == 'timeout':
-                probs.append(('write fault %s at call %d: the command hangs' % (mode, n), rep))
-            elif renamed or rc in (0, -9):
+                probs.append((what + ': the command hangs', rep))
+            elif silent and (renamed or rc in (0, -9)):
                 # the tool went on to the renames (rc -9 = our kill after the last rename of the round)
                 self.stats['fault_proceeded'] = self.stats.get('fault_proceeded', 0) + 1
                 bad = [self.contents[i] for i, c in enumerate(cp) if not L.seal_ok(c or b'')]
                 if bad:
-                    probs.append(('write fault (%s) on %s at call %d of a save with %d copies: the command went on to rename (%s) and installed a content '
-                                  'copy that is not CRC-valid: %s' % (mode, path, n, self.nc, ', '.join(renamed) or 'exit 0', ', '.join(bad)),
-                                  dict(rep, got=[(c or b'').hex()[:2000] for c in cp])))
+                    probs.append((what + ': the command went on to rename (%s) and installed a content copy that is not CRC-valid: %s' % (
+                        ', '.join(renamed) or 'exit 0', ', '.join(bad)), dict(rep, got=[(c or b'').hex()[:2000] for c in cp])))
                 elif any(c != cp[0] for c in cp):
-                    probs.append(('write fault (%s) on %s at call %d: the command went on and left content copies that differ' % (mode, path, n), rep))
+                    probs.append((what + ': the command went on and left content copies that differ', rep))
             else:
                 self.stats['fault_refused'] = self.stats.get('fault_refused', 0) + 1
-                if any(c != old for c in cp):
-                    probs.append(('write fault (%s) on %s at call %d: the command failed (rc=%r) but a content copy is no longer the complete old file' % (
-                        mode, path, n, rc), rep))
-                if not any(m in out for m in (b'DANGER', b'Error writing', b'Error', b'Failed')):
-                    probs.append(('write fault (%s) at call %d: non-zero exit without a diagnostic' % (mode, n), rep))
+                if rc in (0, -9):
+                    probs.append((what + ': the failing call was ignored, the command went on (rc=%r)' % rc, rep))
+                if 'OTHER' in cls:
+                    probs.append((what + ': the command failed (rc=%r) and content copy %s is neither the complete old nor the complete new file' % (
+                        rc, self.contents[cls.index('OTHER')]), dict(rep, got=[(c or b'').hex()[:2000] for c in cp])))
+                elif cls != sorted(cls):
+                    probs.append((what + ': new copies are not a prefix of the content list: %r' % cls, rep))
+                elif 'new' in cls and kind != 'rename':
+                    probs.append((what + ': a copy was replaced although the save failed before its renames: %r' % cls, rep))
+                elif 'new' in cls:
+                    self.stats['fault_rename_partial'] = self.stats.get('fault_rename_partial', 0) + 1
+                if not any(m in out for m in (b'DANGER', b'Error', b'Failed')):
+                    probs.append((what + ': non-zero exit without a diagnostic', rep))
             # whatever happened, the next sync must bring all copies to one valid file
             rc3, out3 = L.run_tool(self.tool, ['-c', 'conf', 'sync'], wd, self.env(T1))
             cp3 = self.read_copies(wd)
             if not probs and (rc3 != 0 or any(c != cp3[0] for c in cp3) or not L.seal_ok(cp3[0] or b'')):
-                probs.append(('after a write fault (%s at call %d) the next sync does not restore identical valid copies (rc=%r)' % (mode, n, rc3), rep))
+                probs.append(('after a ' + what + ' the next sync does not restore identical valid copies (rc=%r): %s' % (rc3, out3[-200:].decode(errors='replace')), rep))
         finally:
             shutil.rmtree(wd, ignore_errors=True)
             try:
                 os.unlink(log)
             except FileNotFoundError:
                 pass
+        return probs
+
+    def missing_copy_cases(self):
+        """one content copy missing (a replaced disk): the remaining ones are loaded, the next sync rewrites all copies"""
+        probs = []
+        if self.nc < 2:
+            return probs
+        for j in range(self.nc):
+            wd = self.clone('missing_%d' % j)
+            try:
+                os.unlink(os.path.join(wd, self.contents[j]))
+                rep = dict(copies=self.nc, missing=self.contents[j])
+                rc, out = L.run_tool(self.tool, ['-c', 'conf', 'status'], wd, self.env(T1))
+                if rc != 0:
+                    probs.append(('with content copy %s missing and the others intact `status` fails (rc=%r): %s' % (self.contents[j], rc, out[-200:].decode(errors='replace')), rep))
+                if self.read_copies(wd)[j] is not None:
+                    probs.append(('`status` created the missing content copy %s' % self.contents[j], rep))
+                rc, out = L.run_tool(self.tool, ['-c', 'conf', 'sync'], wd, self.env(T1))
+                cp = self.read_copies(wd)
+                if rc != 0 or cp != self.final:
+                    probs.append(('with content copy %s missing the sync does not end with all copies equal to the twin run (rc=%r)' % (self.contents[j], rc), rep))
+                self.stats['missing_copy_cases'] = self.stats.get('missing_copy_cases', 0) + 1
+            finally:
+                shutil.rmtree(wd, ignore_errors=True)
+        # all copies but the last damaged in one bit + last intact: refused (the first one is loaded and is damaged); nothing rewritten
+        wd = self.clone('all_but_last_damaged')
+        try:
+            olds = self.read_copies(wd)
+            for j in range(self.nc - 1):
+                b = bytearray(olds[j])
+                b[len(b) // 2] ^= 4
+                open(os.path.join(wd, self.contents[j]), 'wb').write(bytes(b))
+            before = self.read_copies(wd)
+            rc, out = L.run_tool(self.tool, ['-c', 'conf', 'sync'], wd, self.env(T1))
+            why = L.judge(rc, out)
+            if why is not None or self.read_copies(wd) != before:
+                probs.append(('first content copies damaged, last intact: `sync` %s' % (why or 'rewrote a content copy although it refused to run'), dict(copies=self.nc, rc=rc)))
+        finally:
+            shutil.rmtree(wd, ignore_errors=True)
         return probs
 
     def stale_tmp_cases(self):
@@ -473,10 +534,10 @@ class KillScenario:
             for pr in ex.map(self.run_kill, pts):
                 probs += pr
         probs += self.stale_tmp_cases()
-        if self.nc >= 2:
-            with ThreadPoolExecutor(max_workers=workers) as ex:
-                for pr in ex.map(self.run_fault, self.fault_points()):
-                    probs += pr
+        with ThreadPoolExecutor(max_workers=workers) as ex:
+            for pr in ex.map(self.run_fault, self.fault_points(quick)):
+                probs += pr
+        probs += self.missing_copy_cases()
         d = L.snapshot_diff(self.data_snap, L.snapshot_tree(os.path.join(self.root, 'data')))
         if d:
             probs.append(('data files changed during the kill runs: %s' % d[:3], dict(copies=self.nc)))
